@@ -1,4 +1,24 @@
-"""Real neural policies through the real decoding loop, recorded for DecodeTrace.tla."""
+"""Real neural policies through the real decoding loop, recorded for DecodeTrace.tla.
+
+Record styles (one per policy, see `policies`):
+  ref    the policy has the encoder / decoder split of ConstructivePolicy: an independent reference loop (encoder once,
+         decoder module per step, own float64 masked log-softmax, teacher forcing) recomputes the log-probability of every
+         returned action; evaluate (`actions=`) round trip on top
+  sum    the policy only reports the summed log-likelihood and has its own loop (PointerNetwork): one pseudo-step per row,
+         sum + evaluate round trip only
+  mdam   MDAM: P decoders ("paths") per instance, [B, P] summed log-likelihoods, no evaluate entry point; the actions of
+         every path are observed through the environment handle the policy is given (get_reward is called once per path),
+         the reference drives the path's own projection / context modules step by step
+  ffsp   MultiStageFFSPPolicy (MatNet, one encoder/decoder pair per stage, own loop, summed log-likelihood only): the
+         reference drives the stage decoders step by step
+Decoding modes: greedy, sampling, multistart_greedy, multistart_sampling (forced first move), multisample_sampling
+(`num_samples=K`: K sampled rollouts per instance, no forced move, evaluate through `actions=, num_samples=K`) and PolyNet's
+own calling convention `decode_type="sampling", num_starts=K, multisample=True`.
+Row bookkeeping of replicated batches: row r belongs to instance r mod B, replica r div B (rl4co.utils.ops.batchify).
+Policies whose networks draw random numbers inside the forward pass (MatNet's random one-hot column embedding, the
+hierarchical gate of the light MVMoE decoder) are recorded with the generator re-seeded before every call, so the rollout,
+the reference loop and the evaluation see the same draws."""
+import os
 import random
 import warnings
 
@@ -6,29 +26,177 @@ import torch
 
 warnings.filterwarnings("ignore")
 INV = ["M_InMask", "M_Lp", "M_Forced", "M_Sum", "M_Eval", "M_EvalR", "End"]
+K = 3                                                  # replicas per instance in the multi-start / multi-sample modes
+M4 = ("greedy", "sampling", "multistart_greedy", "multistart_sampling")
+M5 = M4 + ("multisample_sampling",)
+POLYNET_OWN = "sampling+num_starts+multisample"        # how rl4co.models.zoo.polynet.model.PolyNet calls its policy
+
+
+def _entry(name, env, mk, **kw):
+    d = {"name": name, "env": env, "mk": mk, "gp": {"num_loc": 8}, "style": "ref", "modes": M4,
+         # evaluation of forced multi-start rows: "rows" = every replica re-evaluated as an ordinary row of its own instance
+         # (only sound when a row's computation does not depend on its replica index and the net draws no random numbers)
+         "ms_eval": "rows",
+         "optional": False,      # known not to run on the pinned tree: recorded when it runs, skipped (with a note) when it raises
+         "quick": True, "prep": None,
+         "amp": 4.0}             # weight amplification of the second pass (peaked distributions)
+    d.update(kw)
+    return d
+
+
+class _Heat(torch.nn.Module):
+    """stand-in for the GNN encoder of the non-autoregressive policies (torch_geometric is not installed offline): a small
+    MLP over pairwise features -> heat-map logits [B, N, N]; the bundled NonAutoregressiveDecoder and NARGNNPolicy do the rest"""
+
+    def __init__(self, hidden=32):
+        super().__init__()
+        self.net = torch.nn.Sequential(torch.nn.Linear(5, hidden), torch.nn.ReLU(), torch.nn.Linear(hidden, 1))
+
+    def forward(self, td):
+        x = td["locs"]
+        n = x.shape[1]
+        a = x.unsqueeze(2).expand(-1, -1, n, -1)
+        b = x.unsqueeze(1).expand(-1, n, -1, -1)
+        f = torch.cat([a, b, (a - b).norm(dim=-1, keepdim=True)], -1)
+        return self.net(f).squeeze(-1), None
+
+
+def trained_like_gates(policy):
+    """MoE gating weights are initialised to zero (every expert ties): give them values as training would"""
+    g = torch.Generator().manual_seed(1234)
+    with torch.no_grad():
+        for n, p in policy.named_parameters():
+            if n.endswith("w_gate") or n.endswith("w_noise") or "dense_or_moe" in n:
+                p.copy_(torch.randn(p.shape, generator=g))
+    return policy
+
+
+def moe_kwargs(light):
+    return {"encoder": {"hidden_act": "ReLU", "num_experts": 4, "k": 2, "noisy_gating": True},
+            "decoder": {"light_version": light, "num_experts": 4, "k": 2, "noisy_gating": True}}     # MVMoE_POMO's defaults
+
+
+SCHED = {"num_jobs": 3, "num_machines": 2}
 
 
 def policies(tier):
     from rl4co.models.zoo import AttentionModelPolicy
-    out = [("AM", "tsp", lambda: AttentionModelPolicy(env_name="tsp", embed_dim=32, num_encoder_layers=1, num_heads=2)),
-           ("AM", "cvrp", lambda: AttentionModelPolicy(env_name="cvrp", embed_dim=32, num_encoder_layers=1, num_heads=2)),
-           ("AM", "op", lambda: AttentionModelPolicy(env_name="op", embed_dim=32, num_encoder_layers=1, num_heads=2)),
-           ("AM", "pdp", lambda: AttentionModelPolicy(env_name="pdp", embed_dim=32, num_encoder_layers=1, num_heads=2))]
-    for e in (("pctsp", "sdvrp", "cvrptw", "mtsp") if tier == "quick" else ("pctsp", "sdvrp", "cvrptw", "mtsp", "spctsp", "svrp")):
-        if True:
-            out.append(("AM", e, (lambda e=e: AttentionModelPolicy(env_name=e, embed_dim=32, num_encoder_layers=1, num_heads=2))))
+    quick = tier == "quick"
+    kw = dict(embed_dim=32, num_encoder_layers=1, num_heads=2)
+    out = []
+    for e in ("tsp", "cvrp", "op", "pdp", "pctsp", "sdvrp", "cvrptw", "mtsp", "spctsp", "svrp"):
+        # svrp: forced multi-start moves ignore the skill mask (the environment's checker then rejects the tour; start
+        # selection is C12's subject), so only the modes without a forced move are recorded there
+        modes = ("greedy", "sampling", "multisample_sampling") if e == "svrp" else \
+            M5 if e in (("tsp",) if quick else ("tsp", "cvrp", "sdvrp")) else M4
+        out.append(_entry("AM", e, (lambda e=e: AttentionModelPolicy(env_name=e, **kw)), quick=e not in ("spctsp", "svrp"), modes=modes))
     # PointerNetwork has its own forward loop (no encoder/decoder split): no reference loop, round trips only
     try:
         from rl4co.models.zoo import PointerNetworkPolicy
-        out.append(("PtrNet", "tsp", lambda: PointerNetworkPolicy(env_name="tsp", embed_dim=32, hidden_dim=32)))
+        out.append(_entry("PtrNet", "tsp", lambda: PointerNetworkPolicy(env_name="tsp", embed_dim=32, hidden_dim=32),
+                          style="sum", modes=("greedy", "sampling")))
     except Exception:
         pass
     try:
         from rl4co.models.zoo import HeterogeneousAttentionModelPolicy
-        out.append(("HAM", "pdp", lambda: HeterogeneousAttentionModelPolicy(env_name="pdp", embed_dim=32, num_encoder_layers=1, num_heads=2)))
+        out.append(_entry("HAM", "pdp", lambda: HeterogeneousAttentionModelPolicy(env_name="pdp", **kw)))
     except Exception:
         pass
-    return out
+    # ---- POMO / SymNCO: attention model variants (instance norm, no graph context; projection head wrapper)
+    out.append(_entry("POMO", "tsp", lambda: AttentionModelPolicy(env_name="tsp", normalization="instance", use_graph_context=False, **kw),
+                      quick=False))
+    out.append(_entry("POMO", "cvrp", lambda: AttentionModelPolicy(env_name="cvrp", normalization="instance", use_graph_context=False, **kw),
+                      quick=False))
+    try:
+        from rl4co.models.zoo.symnco.policy import SymNCOPolicy
+        out.append(_entry("SymNCO", "tsp", lambda: SymNCOPolicy(env_name="tsp", **kw)))
+        out.append(_entry("SymNCO", "cvrp", lambda: SymNCOPolicy(env_name="cvrp", **kw), quick=False))
+    except Exception:
+        pass
+    # ---- MatNet (random one-hot column embedding drawn inside the encoder: a re-evaluation of B*K rows would draw
+    #      another embedding, so forced multi-start rows are compared with the reference loop only)
+    try:
+        from rl4co.models.zoo.matnet.policy import MatNetPolicy
+        out.append(_entry("MatNet", "atsp", lambda: MatNetPolicy(env_name="atsp", **kw), modes=M5, ms_eval=None))
+        # public constructor for the flow shop (raises TypeError on the pinned tree: not constructible, skipped)
+        out.append(_entry("MatNet", "ffsp", lambda: MatNetPolicy(env_name="ffsp", **kw), modes=("greedy", "sampling"), ms_eval=None,
+                          gp={"num_stage": 2, "num_machine": 2, "num_job": 4}, quick=False, optional=True))
+        from rl4co.models.zoo.matnet.policy import MultiStageFFSPPolicy
+        out.append(_entry("MatNetFFSP", "ffsp", lambda: MultiStageFFSPPolicy(stage_cnt=2, embed_dim=32, num_heads=2, num_encoder_layers=1,
+                                                                              feedforward_hidden=64),
+                          style="ffsp", modes=("greedy", "sampling"), quick=False,
+                          gp={"num_stage": 2, "num_machine": 2, "num_job": 4, "flatten_stages": False}))
+    except Exception:
+        pass
+    # ---- PolyNet: replica j of an instance decodes with strategy vector j, so a forced multi-start row cannot be
+    #      re-evaluated as an ordinary row (strategy 0); the multi-sample evaluation keeps the replica structure
+    try:
+        from rl4co.models.zoo.polynet.policy import PolyNetPolicy
+        pm = ("greedy", "sampling", "multisample_sampling", "multistart_greedy", "multistart_sampling", POLYNET_OWN)
+        out.append(_entry("PolyNet", "tsp", lambda: PolyNetPolicy(env_name="tsp", k=K, **kw), modes=pm, ms_eval=None))
+        out.append(_entry("PolyNet", "cvrp", lambda: PolyNetPolicy(env_name="cvrp", k=K, **kw), modes=pm, ms_eval=None, quick=False))
+        out.append(_entry("PolyNet", "sdvrp", lambda: PolyNetPolicy(env_name="sdvrp", k=K, **kw), modes=pm, ms_eval=None, quick=False))
+        out.append(_entry("PolyNet(MatNet)", "atsp", lambda: PolyNetPolicy(env_name="atsp", k=K, encoder_type="MatNet", **kw),
+                          modes=pm, ms_eval=None, quick=False))
+    except Exception:
+        pass
+    # ---- L2D scheduling policies
+    try:
+        from rl4co.models.zoo.l2d.policy import L2DAttnPolicy, L2DPolicy, L2DPolicy4PPO
+        lk = dict(embed_dim=32, num_encoder_layers=1)
+        out.append(_entry("L2D", "fjsp", lambda: L2DPolicy(env_name="fjsp", **lk), gp=SCHED, modes=M5))
+        out.append(_entry("L2D", "jssp", lambda: L2DPolicy(env_name="jssp", **lk), gp=SCHED, modes=M5))
+        out.append(_entry("L2D(stepwise)", "fjsp", lambda: L2DPolicy(env_name="fjsp", stepwise_encoding=True, **lk), gp=SCHED, modes=M5,
+                          quick=False))
+        out.append(_entry("L2D4PPO", "jssp", lambda: L2DPolicy4PPO(env_name="jssp", **lk), gp=SCHED, modes=M5, quick=False))
+        # the public L2DAttnPolicy raises in its first decoding step on the pinned tree (the actor's pre_decoder_hook returns a
+        # 1-tuple the decoder then reads as the cache): skipped while it does, recorded as soon as it runs
+        for e in ("fjsp", "jssp"):
+            out.append(_entry("L2DAttn", e, (lambda e=e: L2DAttnPolicy(env_name=e, num_heads=2, **lk)), gp=SCHED, modes=M5,
+                              quick=False, optional=True))
+            out.append(_entry("L2DAttn(actor in L2DDecoder)", e, (lambda e=e: _l2d_attn_composed(e)), gp=SCHED,
+                              modes=("greedy", "sampling"), quick=False))
+    except Exception:
+        pass
+    # ---- MVMoE: attention model with mixture-of-experts layers on the multi-task VRP (all variants in one batch)
+    mt = {"num_loc": 8, "variant_preset": "all"}
+    out.append(_entry("MVMoE", "mtvrp", lambda: AttentionModelPolicy(env_name="mtvrp", moe_kwargs=moe_kwargs(False), normalization="instance",
+                                                                     use_graph_context=False, **kw), gp=mt, prep=trained_like_gates,
+                      amp=2.0))   # stacked expert layers: a factor 4 puts float32 rounding between batch layouts next to the tolerance
+    # light decoder: a dense-or-MoE gate is SAMPLED at every decoding step (also in eval mode), so only greedy decoding
+    # consumes the generator in the same order as the reference loop and the evaluation
+    out.append(_entry("MVMoE(light)", "mtvrp", lambda: AttentionModelPolicy(env_name="mtvrp", moe_kwargs=moe_kwargs(True), normalization="instance",
+                                                                            use_graph_context=False, **kw), gp=mt, prep=trained_like_gates,
+                      modes=("greedy",), quick=False, amp=2.0))
+    # ---- non-autoregressive policies: NARGNNPolicy + NonAutoregressiveDecoder with a stand-in heat-map encoder
+    try:
+        from rl4co.models.zoo.nargnn.policy import NARGNNPolicy
+        out.append(_entry("NARGNN(stub encoder)", "tsp", lambda: NARGNNPolicy(encoder=_Heat(), env_name="tsp")))
+        # (num_samples=K raises in NonAutoregressiveDecoder.heatmap_to_logits at the first step: the mean heat-map row is not
+        #  replicated for the batchified state; multi-sample decoding is therefore not recorded for this policy)
+    except Exception:
+        pass
+    # ---- MDAM (thorough tier: on the pinned tree the reported log-likelihood is the sum of raw logits)
+    try:
+        from rl4co.models.zoo.mdam.policy import MDAMPolicy
+        out.append(_entry("MDAM", "tsp", lambda: MDAMPolicy(env_name="tsp", **kw), style="mdam", modes=("greedy", "sampling"), quick=False))
+        out.append(_entry("MDAM", "cvrp", lambda: MDAMPolicy(env_name="cvrp", **kw), style="mdam", modes=("greedy", "sampling"), quick=False))
+    except Exception:
+        pass
+    return [e for e in out if e["quick"] or not quick]
+
+
+def _l2d_attn_composed(env_name):
+    """the attention actor the way L2DDecoder drives it (actor(td, *hidden)): the composition that does run"""
+    from rl4co.models.nn.env_embeddings.init import FJSPMatNetInitEmbedding
+    from rl4co.models.zoo.l2d.decoder import L2DAttnActor, L2DDecoder
+    from rl4co.models.zoo.l2d.policy import L2DPolicy
+    from rl4co.models.zoo.matnet.matnet_w_sa import Encoder
+    enc = Encoder(embed_dim=32, num_heads=2, num_layers=1, normalization="batch", feedforward_hidden=64,
+                  init_embedding=FJSPMatNetInitEmbedding(32, scaling_factor=1000))
+    dec = L2DDecoder(env_name=env_name, embed_dim=32,
+                     actor=L2DAttnActor(env_name=env_name, embed_dim=32, num_heads=2, scaling_factor=1000, stepwise=False))
+    return L2DPolicy(env_name=env_name, encoder=enc, decoder=dec)
 
 
 def masked_logp(logits, mask, tanh, temp):
@@ -71,88 +239,221 @@ def reference(policy, env, td0, actions, num_starts, multistart, temperature=Non
     return torch.stack(ref, 1), masks, forced
 
 
+def mode_call(mode):
+    """(decode_type, decoding kwargs, replicas per instance, forced first move)"""
+    if mode in ("greedy", "sampling"):
+        return mode, {}, 0, False
+    if mode.startswith("multistart_"):
+        return mode, {"num_starts": K}, K, True
+    if mode == "multisample_sampling":
+        return "sampling", {"num_samples": K}, K, False
+    if mode == POLYNET_OWN:
+        # num_starts > 1 switches DecodingStrategy to multi-start (forced, distinct first moves) whatever `multisample` says
+        return "sampling", {"num_starts": K, "multisample": True}, K, True
+    raise ValueError(mode)
+
+
+def u(x):
+    return int(round(float(x) * 1e6))
+
+
+class _Tap:
+    """environment handle given to a policy that keeps its per-path actions to itself: get_reward(td, actions) is called
+    once per path, in path order; everything else is the real environment"""
+
+    def __init__(self, env):
+        self._env = env
+        self.paths = []
+
+    def get_reward(self, td, actions):
+        self.paths.append(actions.clone())
+        return self._env.get_reward(td, actions)
+
+    def __getattr__(self, k):
+        return getattr(self._env, k)
+
+
+def mdam_records(entry, policy, env, td0, mode, label, seed):
+    tap = _Tap(env)
+    torch.manual_seed(seed + 1)
+    out = policy(td0.clone(), tap, phase="test", decode_type=mode)
+    ll, rew = out["log_likelihood"], out["reward"]          # [B, P]: summed over the steps of every path
+    dec = policy.decoder
+    B = td0.batch_size[0]
+    enc = policy.encoder(policy.init_embedding(td0.clone()))[0]
+    recs = []
+    for p in range(dec.num_paths):
+        A = tap.paths[p]
+        fixed = dec._precompute(enc.clone(), path_index=p)
+        td = td0.clone()
+        ref = torch.zeros(B, dtype=torch.float64)
+        inmask = torch.ones(B, dtype=torch.bool)
+        for t in range(A.shape[1]):
+            lg, mask = dec._get_logprobs(fixed, td, p)       # tanh clipping and masking are applied inside
+            lp = torch.log_softmax(lg[:, 0, :].double().masked_fill(~mask, float("-inf")), dim=-1)
+            ref += lp.gather(1, A[:, t:t + 1]).squeeze(1)
+            inmask &= mask.gather(1, A[:, t:t + 1]).squeeze(1)
+            td.set("action", A[:, t])
+            td = env.step(td)["next"]
+        for r in range(B):
+            recs.append({"policy": entry["name"], "env": entry["env"], "mode": "%s/path%d" % (label, p), "row": r,
+                         "actions": [1], "mask": [[1] if bool(inmask[r]) else [2]], "lp": [u(ll[r, p])], "ref": [u(ref[r])],
+                         "forced": [False], "ll_sum": u(ll[r, p]), "eval_lp": [], "reward": u(rew[r, p]), "eval_reward": 0,
+                         "path_actions": A[r].tolist()})
+    if not torch.equal(out["actions"], tap.paths[-1]):
+        # the action sequence the policy returns is the last path's
+        recs.append({"policy": entry["name"], "env": entry["env"], "mode": label + "/returned-actions", "row": 0, "actions": [1], "mask": [[2]],
+                     "lp": [0], "ref": [0], "forced": [False], "ll_sum": 0, "eval_lp": [], "reward": 0, "eval_reward": 0})
+    return recs
+
+
+def ffsp_records(entry, policy, env, td0, mode, label, seed):
+    """MultiStageFFSPPolicy: decode type comes from the phase attribute; summed log-likelihood only"""
+    from rl4co.models.zoo.am.decoder import AttentionModelDecoder
+    policy.test_decode_type = mode
+    torch.manual_seed(seed + 1)
+    out = policy(td0.clone(), env, phase="test", num_starts=1)
+    A = out["actions"]
+    B = A.shape[0]
+    torch.manual_seed(seed + 1)
+    td = policy.pre_forward(td0.clone(), env, 1)             # encodes every stage (same random one-hot draws) and fills the caches
+    ref = torch.zeros(B, dtype=torch.float64)
+    inmask = torch.ones(B, dtype=torch.bool)
+    for t in range(A.shape[1]):
+        per_stage = []
+        for dec in policy.decoders:
+            logits, mask = AttentionModelDecoder.forward(dec, td, dec.cached_embs, 1)
+            per_stage.append(masked_logp(logits, mask, dec.tanh_clipping, 1.0).gather(1, A[:, t:t + 1]).squeeze(1))
+        ref += torch.stack(per_stage, 1).gather(1, td["stage_idx"][:, None]).squeeze(1)
+        inmask &= td["action_mask"].gather(1, A[:, t:t + 1]).squeeze(1)
+        td.set("action", A[:, t])
+        td = env.step(td)["next"]
+    recs = []
+    for r in range(B):
+        s_ = u(out["log_likelihood"][r])
+        recs.append({"policy": entry["name"], "env": entry["env"], "mode": label, "row": r, "actions": [1],
+                     "mask": [[1] if bool(inmask[r]) else [2]], "lp": [s_], "ref": [u(ref[r])], "forced": [False], "ll_sum": s_,
+                     "eval_lp": [], "reward": u(out["reward"][r]), "eval_reward": 0, "path_actions": A[r].tolist()})
+    return recs
+
+
 def records(tier, seed):
     from rl4co.envs import get_env
 
     rnd = random.Random(seed)
     torch.manual_seed(seed)
     recs = []
-    for (pname, ename, mk) in policies(tier):
+    for entry in policies(tier):
+        pname, ename = entry["name"], entry["env"]
         try:
-            env = get_env(ename, generator_params={"num_loc": 8} if ename not in ("pdp",) else {"num_loc": 8})
-            policy = mk().eval()
+            env = get_env(ename, generator_params=dict(entry["gp"]))
+            policy = entry["mk"]().eval()
+            if entry["prep"] is not None:
+                policy = entry["prep"](policy)
         except Exception as e:      # policy/env not constructible offline: recorded in evidence by absence
+            _note("%s/%s not constructible: %s: %s" % (pname, ename, type(e).__name__, str(e)[:120]))
             continue
         B = 3
         td0 = env.reset(batch_size=[B])
-        has_ref = pname != "PtrNet"
+        if entry["optional"]:
+            try:
+                with torch.no_grad():
+                    policy(td0.clone(), env, phase="test", decode_type="greedy")
+            except Exception as e:
+                _note("%s/%s does not run on this tree: %s: %s" % (pname, ename, type(e).__name__, str(e)[:120]))
+                continue
+        has_ref = entry["style"] == "ref"
         # second pass with amplified weights (peaked distributions: index / ordering mistakes become visible) and a
         # non-default temperature given as decoding argument
-        variants = [(1.0, None, ("greedy", "sampling", "multistart_greedy", "multistart_sampling")),
-                    (4.0, 0.5, ("sampling", "multistart_sampling") if tier == "quick" else
-                     ("greedy", "sampling", "multistart_greedy", "multistart_sampling"))]
+        sampled = tuple(m for m in entry["modes"] if "greedy" not in m)
+        variants = [(1.0, None, entry["modes"]),
+                    (entry["amp"], 0.5, sampled if (tier == "quick" and sampled) else entry["modes"])]
         for (amp, temp, modes) in variants:
           if amp != 1.0:
             with torch.no_grad():
                 for prm in policy.parameters():
                     if prm.dim() > 1:
                         prm.mul_(amp)
-          tkw = {} if temp is None else {"temperature": temp}
+          tkw = {} if (temp is None or entry["style"] != "ref") else {"temperature": temp}
           for mode in modes:
+            label = mode + ("" if amp == 1.0 else ("/amp%g/T%g" % (amp, temp) if tkw else "/amp%g" % amp))
+            if entry["style"] == "mdam":
+                with torch.no_grad():
+                    recs += mdam_records(entry, policy, env, td0, mode, label, seed)
+                continue
+            if entry["style"] == "ffsp":
+                with torch.no_grad():
+                    recs += ffsp_records(entry, policy, env, td0, mode, label, seed)
+                continue
+            dtype, mkw, Kn, forced1 = mode_call(mode)
+            if Kn and not has_ref:
+                continue
+            if os.environ.get("VERIF_VERBOSE"):
+                print("[C11 nets] %s/%s/%s" % (pname, ename, label), flush=True)
             kw = dict(tkw)
-            K = 0
-            if "multistart" in mode:
-                if ename in ("fjsp", "jssp") or not has_ref:
-                    continue
-                K = 3
-                kw["num_starts"] = K
+            kw.update(mkw)
             with torch.no_grad():
                 torch.manual_seed(seed + 1)
-                out = policy(td0.clone(), env, phase="test", decode_type=mode, return_sum_log_likelihood=False, **kw)
+                out = policy(td0.clone(), env, phase="test", decode_type=dtype, return_sum_log_likelihood=False, **kw)
                 actions = out["actions"]
                 torch.manual_seed(seed + 1)
-                out_sum = policy(td0.clone(), env, phase="test", decode_type=mode, return_sum_log_likelihood=True, **kw)
+                out_sum = policy(td0.clone(), env, phase="test", decode_type=dtype, return_sum_log_likelihood=True, **kw)
                 same = torch.equal(out_sum["actions"], actions)
                 if has_ref:
-                    ref, masks, forced = reference(policy, env, td0, actions, K if K else 0, "multistart" in mode, temp)
+                    torch.manual_seed(seed + 1)
+                    ref, masks, forced = reference(policy, env, td0, actions, Kn, forced1, temp if tkw else None)
                 else:
                     ref = out["log_likelihood"]
                     forced = [False] * actions.shape[1]
                     masks = [torch.ones(actions.shape[0], td0["action_mask"].shape[-1], dtype=torch.bool)] * actions.shape[1]
+                torch.manual_seed(seed + 1)
                 if pname == "PtrNet":     # its evaluation entry point is `eval_tours`
-                    ev = policy(td0.clone(), env, phase="test", decode_type=mode, eval_tours=actions)
-                elif "multistart" not in mode:
+                    ev = policy(td0.clone(), env, phase="test", decode_type=dtype, eval_tours=actions)
+                elif not Kn:
                     ev = policy(td0.clone(), env, actions=actions, return_sum_log_likelihood=False, **tkw)
-                else:
+                elif not forced1:
+                    # K sampled rollouts per instance: the evaluation replicates the batch the same way (num_samples)
+                    ev = policy(td0.clone(), env, actions=actions, return_sum_log_likelihood=False, **kw)
+                elif entry["ms_eval"] == "rows":
                     # every replica re-evaluated as an ordinary (non multi-start) row of its own instance: no batchify,
                     # no cache regrouping on this path, so a replica that was decoded with another instance's
                     # embeddings shows up as a log-probability mismatch on the non-forced steps
                     idx = torch.arange(actions.shape[0]) % B
                     ev = policy(td0[idx].clone(), env, actions=actions, return_sum_log_likelihood=False, **tkw)
+                else:
+                    ev = None
             if out["log_likelihood"].dim() == 1:
                 # the policy only reports the summed log-likelihood (PointerNetwork): one pseudo-step per row, so that
                 # the sum and the evaluate round trip are still checked
                 for r in range(actions.shape[0]):
-                    s_ = int(round(float(out["log_likelihood"][r]) * 1e6))
-                    recs.append({"policy": pname, "env": ename, "mode": mode + ("" if amp == 1.0 else "/amp%g/T%g" % (amp, temp)),
+                    s_ = u(out["log_likelihood"][r])
+                    recs.append({"policy": pname, "env": ename, "mode": label,
                                  "row": r, "actions": [1], "mask": [[1]], "lp": [s_], "ref": [s_], "forced": [False],
-                                 "ll_sum": int(round(float(out_sum["log_likelihood"][r]) * 1e6)) if same else s_,
-                                 "eval_lp": [int(round(float(ev["log_likelihood"].reshape(actions.shape[0], -1).sum(-1)[r]) * 1e6))],
-                                 "reward": int(round(float(out["reward"][r]) * 1e6)),
-                                 "eval_reward": int(round(float(ev["reward"][r]) * 1e6))})
+                                 "ll_sum": u(out_sum["log_likelihood"][r]) if same else s_,
+                                 "eval_lp": [u(ev["log_likelihood"].reshape(actions.shape[0], -1).sum(-1)[r])],
+                                 "reward": u(out["reward"][r]),
+                                 "eval_reward": u(ev["reward"][r])})
                 continue
             for r in range(actions.shape[0]):
                 recs.append({
-                    "policy": pname, "env": ename, "mode": mode + ("" if amp == 1.0 else "/amp%g/T%g" % (amp, temp)), "row": r,
+                    "policy": pname, "env": ename, "mode": label, "row": r,
                     "actions": [int(a) + 1 for a in actions[r].tolist()],
                     "mask": [[i + 1 for i in m[r].nonzero().flatten().tolist()] for m in masks],
-                    "lp": [int(round(float(x) * 1e6)) for x in out["log_likelihood"][r].tolist()],
-                    "ref": [int(round(float(x) * 1e6)) for x in ref[r].tolist()],
+                    "lp": [u(x) for x in out["log_likelihood"][r].tolist()],
+                    "ref": [u(x) for x in ref[r].tolist()],
                     "forced": forced,
-                    "ll_sum": int(round(float(out_sum["log_likelihood"][r]) * 1e6)) if same else
-                    int(round(float(out["log_likelihood"][r].sum()) * 1e6)),
-                    "eval_lp": [int(round(float(x) * 1e6)) for x in ev["log_likelihood"][r].tolist()] if ev is not None else [],
-                    "reward": int(round(float(out["reward"][r]) * 1e6)),
-                    "eval_reward": int(round(float(ev["reward"][r]) * 1e6)) if ev is not None else 0,
+                    "ll_sum": u(out_sum["log_likelihood"][r]) if same else u(out["log_likelihood"][r].sum()),
+                    "eval_lp": [u(x) for x in ev["log_likelihood"][r].tolist()] if ev is not None else [],
+                    "reward": u(out["reward"][r]),
+                    "eval_reward": u(ev["reward"][r]) if ev is not None else 0,
                 })
     return recs
+
+
+NOTES = []
+
+
+def _note(s):
+    NOTES.append(s)
+    if os.environ.get("VERIF_VERBOSE"):
+        print("[C11 nets] " + s, flush=True)
